@@ -4,13 +4,18 @@ package main
 // C11 — recipients with different label sets cannot share a file.
 
 import (
+	"bytes"
 	"errors"
 	"fmt"
+	"os"
+	"path/filepath"
 	"runtime"
 	"sort"
 	"strings"
+	"time"
 
 	"filippo.io/age"
+	"filippo.io/age/internal/format"
 )
 
 func init() {
@@ -219,6 +224,53 @@ func checkC10(c *Ctx) {
 				c.note(fmt.Sprintf("wf:%d:%s:%s", max, w, pw), true)
 				c.count("work-factor")
 			}
+		}
+	}
+	// (c) the CLI's lazy passphrase identity (age -d without -i): it must ask for the passphrase only
+	// when a scrypt stanza is the ONLY stanza, and must refuse a work factor above its maximum (22)
+	// without deriving a key (a derivation at 2^23 takes tens of seconds and 8 GiB).
+	{
+		dir, _ := os.MkdirTemp("", "verif-c10-")
+		defer os.RemoveAll(dir)
+		st := mkStanza(4)
+		mkFile := func(ss []*age.Stanza) []byte {
+			h := &format.Header{MAC: make([]byte, 32)}
+			for _, s := range ss {
+				h.Recipients = append(h.Recipients, (*format.Stanza)(s))
+			}
+			var b bytes.Buffer
+			h.Marshal(&b)
+			b.Write(make([]byte, 16+16))
+			return b.Bytes()
+		}
+		x := &age.Stanza{Type: "X25519", Args: []string{"TEiF0ypqr+bpvcqXNyCVJpL7OuwPdVwPL7KQEbFDOCc"}, Body: make([]byte, 32)}
+		cases := []struct {
+			name   string
+			ss     []*age.Stanza
+			prompt bool
+		}{
+			{"scrypt-alone", []*age.Stanza{st}, true},
+			{"scrypt-first-of-2", []*age.Stanza{st, x}, false},
+			{"scrypt-last-of-2", []*age.Stanza{x, st}, false},
+			{"scrypt-middle-of-3", []*age.Stanza{x, st, greaseStanza(c.rng)}, false},
+			{"two-scrypt", []*age.Stanza{st, mkStanza(4)}, false},
+			{"no-scrypt", []*age.Stanza{x}, false},
+			{"work-factor-23", []*age.Stanza{{Type: st.Type, Args: []string{st.Args[0], "23"}, Body: st.Body}}, true},
+			{"work-factor-30", []*age.Stanza{{Type: st.Type, Args: []string{st.Args[0], "30"}, Body: st.Body}}, true},
+		}
+		for _, tc := range cases {
+			os.WriteFile(filepath.Join(dir, "f.age"), mkFile(tc.ss), 0o600)
+			os.Remove(filepath.Join(dir, "out"))
+			t0 := time.Now()
+			exit, typed := runPtyTyped(dir, [][2]string{{"Enter passphrase", pass}}, binPath("age"), "-d", "-o", "out", "f.age")
+			el := time.Since(t0)
+			_, exists := os.Stat(filepath.Join(dir, "out"))
+			in := map[string]interface{}{"cli": "age -d (no -i)", "header": tc.name}
+			c.Oracle("cli-prompts-only-for-a-lone-scrypt-stanza", (typed == 1) == tc.prompt && exit != 0 && exists != nil, "cli-lazy-scrypt", in,
+				fmt.Sprintf("prompted=%v (expected %v), exit=%d, output created=%v", typed == 1, tc.prompt, exit, exists == nil))
+			c.Oracle("cli-bounds-key-derivation-work", el < 8*time.Second, "cli-scrypt-work-unbounded", in, fmt.Sprintf("took %v", el))
+			c.note("cli:"+tc.name, true)
+			c.count("cli-lazy-identity")
 		}
 	}
 	c.sample(map[string]interface{}{"work_factor_strings": []string{"0", "01", "+6", "0x6", "9223372036854775808"}, "maxima": []int{1, 3, 6, 9, 12}})
